@@ -230,11 +230,15 @@ class PathV:
     def __repr__(self):
         return 'path(%s%s)' % ('/' if self.absolute else '', '/'.join(self.comps))
 
+    def canon(self):
+        """std::path compares by components, and `components()` drops every `.` except a leading one of a relative path"""
+        return tuple(c for i, c in enumerate(self.comps) if c != '.' or (i == 0 and not self.absolute))
+
     def __eq__(self, o):
-        return isinstance(o, PathV) and self.absolute == o.absolute and self.comps == o.comps
+        return isinstance(o, PathV) and self.absolute == o.absolute and self.canon() == o.canon()
 
     def __hash__(self):
-        return hash((self.absolute, self.comps))
+        return hash((self.absolute, self.canon()))
 
     def to_str(self):
         return ('/' if self.absolute else '') + '/'.join(self.comps)
